@@ -174,7 +174,7 @@ impl Output {
                         // Rename the old output file so that we can create a new file in its place.
                         // Reusing the existing file would also be an option, but that wouldn't
                         // error if the file is currently being executed.
-                        let renamed_old_file = path.with_extension("delete");
+                        let renamed_old_file = old_output_temp_path(&path);
                         let rename_status = std::fs::rename(&path, &renamed_old_file);
 
                         // If there was an old output file that we renamed, then delete it. We do so
@@ -304,6 +304,17 @@ fn default_file_write_mode(args: &impl platform::Args, output_kind: OutputKind) 
     };
 
     FileWriteMode::UpdateInPlaceWithFallback
+}
+
+/// Returns the path that we temporarily rename the old output file to before deleting it. The
+/// name is derived from the full file name of the output plus our process ID, so that it can't
+/// collide with an unrelated file such as `foo.delete` next to an output `foo.so`, nor with a
+/// concurrent link that writes `foo.o` to the same directory.
+fn old_output_temp_path(path: &Path) -> std::path::PathBuf {
+    let mut name = std::ffi::OsString::from(".");
+    name.push(path.file_name().unwrap_or_default());
+    name.push(format!(".{}.wild-delete", std::process::id()));
+    path.with_file_name(name)
 }
 
 /// Delete the old output file. Note, this is only used when running from a single thread.
